@@ -44,7 +44,7 @@ def _large_cases(th):
     for ns in ([50001] if not th else [49999, 50000, 50001, 100003]):
         yield {'spec': D.large_spec(ns, seed=ns % 97), 'factor': 2.5, 'large': True}
     # more than 1024 templates / cluster ids; probes with 64 and more channels
-    for nt in ([1100] if not th else [1025, 1100, 2049, 3000]):
+    for nt in ([1100, 1001] if not th else [1001, 1025, 1100, 2001, 2049, 3000]):
         yield {'spec': D.large_curated_spec(nt=nt, ns=3 * nt, seed=nt % 89), 'factor': 2.5,
                'large': True}
     for nc in ([70] if not th else [64, 65, 130, 384]):
